@@ -393,6 +393,40 @@ def random_case(draw, tier):
     return c
 
 
+def check_disguised_inlets(fd, case, outlet, m0, labels):
+    """Cells outside the area that touch it are given an invalid code that
+    resembles the direction towards the area (its negative, its complement,
+    the code shifted by one byte, the code plus 256 or 2^32) and are used as
+    inlets: they are terminal cells, inlet or not."""
+    nr, nc = fd.shape
+    n = fd.size
+    if len(m0) < 2:
+        return
+    fd2 = fd.copy()
+    picks = []
+    for c in range(n):
+        if c in m0 or len(picks) >= 3:
+            continue
+        r, k = divmod(c, nc)
+        for code, (dr, dc) in G.OFFSETS.items():
+            r2, k2 = r + dr, k + dc
+            if 0 <= r2 < nr and 0 <= k2 < nc and r2 * nc + k2 in m0:
+                j = (c + len(picks) + case["start"]) % 6
+                fd2[r, k] = [-code, -code, 256 + code, code * 256, ~code,
+                             code + 2**32][j]
+                picks.append(c)
+                break
+    if not picks:
+        return
+    g2, ca2 = make_catchment(fd2, case.get("geom"))
+    down2 = G.down_model(fd2)
+    check_area(ca2, fd2, down2, outlet, picks, labels)
+    check_area(ca2, fd2, down2, outlet, picks + picks[:1], labels)
+    if not np.array_equal(np.asarray(g2.data), fd2):
+        raise Violation("delineate_area changed the flow direction grid")
+    labels.add("inlets-on-invalid-cells-next-to-the-area")
+
+
 def random_oracle(case):
     quiet()
     fd = G.fd_array(case)
@@ -456,6 +490,12 @@ def random_oracle(case):
         inlets = picks
         labels.add(f"inlets:{len(picks)}:{case['many_order']}")
     nt = check_area(ca, fd, down, outlet, inlets, labels)
+    if inlets:
+        # the same set of inlets with cells listed more than once
+        check_area(ca, fd, down, outlet, inlets + inlets, labels)
+        check_area(ca, fd, down, outlet, inlets + inlets[:1], labels)
+        labels.add("inlets-listed-twice")
+    check_disguised_inlets(fd, case, outlet, m0, labels)
     check_reuse(ca, fd, down, case, labels)
     check_river(g, fd, down, case["start"], case["nval"], labels)
     if any(G.chains(down)[1]):
